@@ -27,6 +27,11 @@ def step (st : St) (line : String) : St × String :=
       | none => (st, "rej")
     | _, _, _ => (st, "bad-op")
   | ["epoch"] => ({ st with cur := { st.cur with epoch := st.cur.epoch + 1 } }, "ok")
+  -- an epoch change at which the listed accounts were cleared as dust (their nonce record is gone)
+  | ["epochclear", l] =>
+    match (l.splitOn ".").mapM (·.toNat?) with
+    | some d => ({ st with cur := ((IdenaModel.Chain.step st.cur (Ev.clearEpoch d)).getD st.cur) }, "ok")
+    | none => (st, "bad-op")
   | ["blk"] => ({ st with snaps := st.cur :: st.snaps }, "ok")
   | ["reset", k] =>
     match k.toNat? with
